@@ -15,6 +15,7 @@ FUNCTIONS = [
     "PrintrunWriter._abort_on_device_error", "PrintrunWriter._on_device_message",
     "PrintrunWriter._on_printrun_error", "PrintrunWriter.is_connected/get_parameter",
     "PrintrunWriter.disconnect/_wait_for_pending_operations/has_pending_operations",
+    "PrintrunWriter.connect/_create_device/_connect_device/_wait_for_connection/_start_print_thread",
 ]
 BOUNDS = ("NOT real thread schedules. The printcore object is a recording stub; the reader thread is "
           "replaced by a scripted source of device lines whose callbacks run at one of two points "
@@ -33,9 +34,16 @@ BOUNDS = ("NOT real thread schedules. The printcore object is a recording stub; 
           "where the stubbed sender/reader make progress (0, 1 or 3 queued statements, busy or idle, "
           "optional error line at the 1st/2nd poll), the connection is closed only after the queue "
           "is empty and the last statement acknowledged, a device error during the wait is raised "
-          "and the connection closed all the same, wait=False does not poll. NOT decided: "
-          "pre-emption at other points, latency, connect(), the real printcore threads.")
+          "and the connection closed all the same, wait=False does not poll. connect(): the "
+          "stand-in plays printcore's start-up handshake (M110 N-1, its ok, the empty job ends, "
+          "M110 N-1 again without waiting); the delivery point of the ok still owed {before connect "
+          "returns, overtaking the first write, when the first write blocks} is a solver variable, "
+          "followed by 1-2 statements with every reply script. NOT decided: pre-emption at other "
+          "points, latency, the real printcore threads.")
 ASSUMPTIONS = [
+    "printcore's handshake is played by the stand-in as read from printcore.py (startprint sends "
+    "M110 N-1; the print thread waits for its ok, finds the job empty, stops and sends M110 N-1 again "
+    "without waiting; sendcb before every line; recvcb before `clear` is set)",
     "the reader thread is modelled by callbacks at two yield points (inside send(), inside "
     "Event.wait()); pre-emption between other statements of write() is not explored",
     "threading.Event is replaced by a stub whose wait() first lets the scripted reader run and "
@@ -94,6 +102,40 @@ class FakeCore:
         self.sent.append(command)
         self.on_send()
 
+    # --- connect() and the start-up handshake, as printcore does them (read from printcore.py:
+    # startprint() sends "M110 N-1" and the print thread waits for its ok; with an empty job the
+    # thread then stops printing and sends "M110 N-1" AGAIN without waiting for that ok; every
+    # line written goes through sendcb first; recvcb runs before `clear` is set) ---
+    sendcb = recvcb = onlinecb = errorcb = None
+    stage = 0
+
+    def connect(self, port=None, baud=None):
+        self.online = True
+        if self.onlinecb:
+            self.onlinecb()
+
+    def _emit(self, command):
+        self.handshake.append(command)
+        if self.sendcb:
+            self.sendcb(command, None)
+
+    def startprint(self, gcode, startindex=0):
+        self.handshake = []
+        self.printing = True
+        self.clear = False
+        self._emit("M110 N-1")
+        self.stage = 1
+        return True
+
+    def print_thread_step(self):
+        """One scheduling slot for the reader + print threads (called where the writer sleeps)."""
+        if self.stage == 1:
+            self.recvcb("ok\n")          # the ok of the first M110 ...
+            self.clear = True            # ... releases the print thread,
+            self.printing = False        # which finds the job empty, stops printing
+            self._emit("M110 N-1")       # and resets the line numbers again
+            self.stage = 2               # the ok of THAT line is still owed by the device
+
     def disconnect(self):
         self.disconnected_with = (self.priqueue.empty(), self.clear, self.printing)
 
@@ -119,15 +161,16 @@ SCRIPTS = {
 EXPECT_READING = {"report-ok": ("X", 1.5), "ok-with-report": ("T", 201.5)}
 
 
-def _make(script_names):
+def _make(script_names, handshake=False):
     n_lines = sum(len(SCRIPTS[s]) for s in script_names)
 
-    def core(early, late):
+    def core(early, late, hs_when=0):
         w = pw_mod.PrintrunWriter("serial", "host", "port", 250000)
         core_dev = FakeCore()
-        w._device = core_dev
         ev = FakeEvent()
         w._ack_event = ev
+        if not handshake:
+            w._device = core_dev
         statements = [f"G1 X{k + 1} F600" for k in range(len(script_names))]
         pending = []          # lines of the current statement not yet delivered: (line, kind, early?)
         delivered_kinds = []
@@ -153,12 +196,56 @@ def _make(script_names):
 
         core_dev.on_send = lambda: deliver(False)
         ev.on_wait = lambda timeout=None: deliver(True, timeout)
+        stale = []
+        if handshake:
+            # connect() for real, against the printcore stand-in. The ok owed for the second
+            # "M110 N-1" arrives: 0 = in the same scheduling slot (before connect() can return),
+            # 1 = right after the first statement is handed to the sender (overtakes write()),
+            # 2 = when the first write() blocks; in every case BEFORE the first statement's own ack.
+            assume(hs_when >= 0)
+            assume(hs_when <= 2)
+
+            class FakeTime:
+                @staticmethod
+                def sleep(dt):
+                    core_dev.print_thread_step()
+                    if core_dev.stage == 2 and hs_when == 0:
+                        core_dev.stage = 3
+                        core_dev.recvcb("ok\n")
+
+                def __getattr__(self, name):
+                    import time
+                    return getattr(time, name)
+
+            old_time, old_core = pw_mod.time, pw_mod.printcore
+            pw_mod.time, pw_mod.printcore = FakeTime(), (lambda: core_dev)
+            # a wait inside connect() lets the reader run: the owed ok is delivered then
+            def hs_wait(timeout=None):
+                if core_dev.stage == 2:
+                    core_dev.stage = 3
+                    core_dev.recvcb("ok\n")
+            ev.on_wait = hs_wait
+            try:
+                w.connect()
+            except Exception as e:  # noqa: BLE001
+                msg = f"{type(e).__name__}: {e}"
+                return V("connect-raised", lambda: f"{msg} (handshake ok delivery={hs_when!r})")
+            finally:
+                pw_mod.time, pw_mod.printcore = old_time, old_core
+            ev.on_wait = lambda timeout=None: deliver(True, timeout)
+            if core_dev.handshake != ["M110 N-1", "M110 N-1"] or core_dev.printing:
+                return V("handshake-not-completed", lambda: f"{core_dev.handshake!r} stage={core_dev.stage}")
+            if core_dev.stage == 2:
+                stale.append(("ok", "stale", hs_when == 1, False))
+            reached("connected")
         bit = 0
         owed_error = False        # an error line arrived while no write() was waiting
         for k, (stmt, sname) in enumerate(zip(statements, script_names)):
             script = [x for x in SCRIPTS[sname] if x[1] != "between"]
             after = [x for x in SCRIPTS[sname] if x[1] == "between"]
             pending[:] = [(line, kind, early[bit + i], late[bit + i]) for i, (line, kind) in enumerate(script)]
+            if k == 0 and stale:
+                pending[:0] = stale       # the handshake's last ok is still on its way
             bit += len(SCRIPTS[sname])
             del delivered_kinds[:]
             raised = None
@@ -197,12 +284,16 @@ def _make(script_names):
         return None
 
     params = [f"e{i}" for i in range(n_lines)] + [f"l{i}" for i in range(n_lines)]
-    src = (f"def h({', '.join(params)}):\n"
-           f"    return core([{', '.join(params[:n_lines])}], [{', '.join(params[n_lines:])}])\n")
+    extra = ["hs_when"] if handshake else []
+    src = (f"def h({', '.join(params + extra)}):\n"
+           f"    return core([{', '.join(params[:n_lines])}], [{', '.join(params[n_lines:])}]"
+           f"{', hs_when' if handshake else ''})\n")
     ns = {"core": core}
     exec(src, ns)
     h = ns["h"]
     h.__annotations__ = {p: bool for p in params}
+    if handshake:
+        h.__annotations__["hs_when"] = int
     return h
 
 
@@ -281,6 +372,10 @@ def cells(tier):
     for combo in combos:
         out.append(Cell("statements=" + ",".join(combo), _make(combo), budget_s=120,
                         must_reach=("done",), entry="PrintrunWriter.write"))
+    for combo in [(a,) for a in names] + [("ok", b) for b in names] + [("report-ok", "ok-with-report")]:
+        out.append(Cell("connect+statements=" + ",".join(combo), _make(combo, handshake=True), budget_s=120,
+                        must_reach=("connected", "done"),
+                        entry="PrintrunWriter.connect/_start_print_thread + write"))
     for nq in (0, 1, 3):
         for error_step in (0, 1, 2):
             out.append(Cell(f"disconnect|queued={nq}|error-at-poll={error_step}",
